@@ -137,8 +137,8 @@ func senBareRisk(doc Node) bool {
 		if !isKey && (s == "true" || s == "false" || s == "null") {
 			risk = true
 		}
-		if s[0] == '-' || s[0] == '+' || strings.ContainsRune(s, '`') {
-			risk = true
+		if s[0] == '-' || s[0] == '+' || strings.ContainsRune(s, '`') || strings.HasPrefix(s, "\ufeff") {
+			risk = true // (a bare word starting with U+FEFF at the start of the text is taken for a byte order mark)
 		}
 	}
 	doc.Walk(func(n Node) {
@@ -186,9 +186,25 @@ func hasWide(doc Node) bool {
 	return w
 }
 
+// zeroExp: a number literal whose integer part 0 is directly followed by an exponent (0e0, -0E5).
+func zeroExp(doc Node) bool {
+	found := false
+	doc.Walk(func(n Node) {
+		if n.T == "float" {
+			s := strings.TrimPrefix(n.S, "-")
+			if len(s) > 1 && s[0] == '0' && (s[1] == 'e' || s[1] == 'E') {
+				found = true
+			}
+		}
+	})
+	return found
+}
+
 func rtExcluded(c RTCase) string {
 	senOut := c.W.JSON != "t"
 	switch {
+	case zeroExp(c.Doc) && h.ExclOn("zero-exponent"):
+		return "zero-exponent"
 	case escapedAstral(c.Doc, c.Style) && h.ExclOn("escaped-surrogate-pair"):
 		return "escaped-surrogate-pair"
 	case senOut && senBareRisk(c.Doc) && h.ExclOn("sen-bare-word"):
@@ -538,6 +554,17 @@ func descAfterMulti(fs []Frag) bool {
 }
 
 func pExcluded(c PCase) string {
+	if h.ExclOn("zero-exponent") {
+		ze := zeroExp(c.Doc)
+		for _, o := range c.Ops {
+			if o.Val != nil && zeroExp(*o.Val) {
+				ze = true
+			}
+		}
+		if ze {
+			return "zero-exponent"
+		}
+	}
 	for _, o := range c.Ops {
 		if descAfterMulti(o.Path) && h.ExclOn("desc-after-multi") {
 			return "desc-after-multi"
